@@ -685,7 +685,18 @@ func (ex *Exec) step(st *State, in ssa.Instruction) {
 	case *ssa.UnOp:
 		env[in] = ex.unop(st, in)
 	case *ssa.BinOp:
-		env[in] = ex.binop(st, in.Op, ex.value(st, in.X), ex.value(st, in.Y), in.Pos())
+		r := ex.binop(st, in.Op, ex.value(st, in.X), ex.value(st, in.Y), in.Pos())
+		// unsigned machine integers wrap around (signed ones are mathematical: see the
+		// assumptions): byte(a) - byte(b) is taken modulo 256
+		if ri, ok := r.(Int); ok && (in.Op == token.ADD || in.Op == token.SUB || in.Op == token.MUL) {
+			if bt, ok := in.Type().Underlying().(*types.Basic); ok && bt.Info()&types.IsUnsigned != 0 {
+				mod := map[types.BasicKind]string{types.Uint8: "256", types.Uint16: "65536", types.Uint32: "4294967296", types.Uint64: "18446744073709551616", types.Uint: "18446744073709551616", types.Uintptr: "18446744073709551616"}[bt.Kind()]
+				if mod != "" {
+					r = Int{"(mod " + ri.T + " " + mod + ")"}
+				}
+			}
+		}
+		env[in] = r
 	case *ssa.Store:
 		p, ok := ex.value(st, in.Addr).(Ptr)
 		if !ok {
